@@ -53,7 +53,8 @@ def removal_rules(fx, rep):
         pn = [bb for bb, i, s in fc.aggregates("DdsError", "PreconditionNotMet")]
         add("R36a", "PreconditionNotMet is reported", bool(pn), "no PreconditionNotMet")
         for x in pn:
-            add("R36a", "failing precondition changes nothing", not any(r in fc.mir.reachable(x) for r in rem), "removal reachable after the error was built")
+            # (an error that is built as a verdict first and returned through `?` afterwards does not continue to the removal)
+            add("R36a", "failing precondition changes nothing", not fc.reach_avoiding(rem, lambda e2, o2, c2=None: False, start=x), "removal reachable after the error was built")
     # participant
     d = fx.fn("DcpsParticipantFactory", "delete_participant")
     df = FnCtx(d)
